@@ -11,9 +11,11 @@ CHECKS = {
         text="NECESSARY CONDITION: the grammar each pack/_pack_inner/get_value can emit and the grammar each _unpack_*/unpack accepts are extracted from the AST "
              "and aligned: every emitted component is accepted at that point (position or tag dispatch) with the same universal kind, an accepted tag, the same "
              "dataclass field on both sides, inverse conversions, omission <=> decoder default; field coverage; protocolOp/choice dispatch; exact consumption of one "
-             "outer SEQUENCE; writers pure; no post-decode mutation except two reviewed injections. Value equality and primitive arithmetic are not decided.",
-        note="Reader idioms recognised: positional reads, sub-readers, while-reader repetition, peek+tag-test dispatch loops with skip_value, optional-by-peek; an "
-             "unknown reader shape is an ANALYSIS-ERROR for that class, never a verdict.",
+             "outer SEQUENCE; writers pure; writer tags constant; no post-decode mutation except two reviewed injections; the reader primitives advance by exactly what was "
+             "validated and agree on the reader state they reset. Value equality and primitive arithmetic are not decided.",
+        note="Reader/writer shapes followed: positional reads, sub-readers, while-reader repetition, tag dispatch decided by a (class, number) set algebra, optional-by-peek, "
+             "guard clauses, private helpers that take the reader/writer (predicates, header-returning, list/tuple-returning); an unknown shape is an ANALYSIS-ERROR "
+             "for that class, never a verdict. 32 sub-agent refactorings of the code base leave the check silent (DESIGN.md 0b, 10).",
         ref="DESIGN.md section 5 C01, section 4 Engine B"),
     "C03": dict(
         technique="TLV writer-grammar extraction compared with an independent RFC 4511 / RFC 2696 table",
@@ -27,7 +29,7 @@ CHECKS = {
         technique="structural obligations on the extracted reader grammars and on asn1.py's header routine",
         text="NECESSARY CONDITIONS for the four encoding freedoms: (1) one header routine, none of whose rejections depends on the number of length octets or on "
              "minimality; (2) BOOLEAN truth is content != 00; (3) every DEFAULT component has a real reader of its own kind; (4) in every SEQUENCE reader the tail is "
-             "tag-dispatched with unknown tags skipped and nothing rejects leftover data. Equality of values decoded from alternative forms (multi-octet length "
+             "tag-dispatched with unknown tags skipped and no raise is reached only while a reader still holds data. Equality of values decoded from alternative forms (multi-octet length "
              "arithmetic) is not decided.",
         note="Same extractor and trusted base as C01.",
         ref="DESIGN.md section 5 C04"),
@@ -35,7 +37,8 @@ CHECKS = {
         technique="structural lemmas on the AST + path-sensitive effect extraction of receive (typestate engine)",
         text="Decides the five code-shape lemmas from which chunking independence follows by induction (the induction is on paper): L1/L2 a reader "
              "advances only after validation and by exactly header+content, T1 no upper-bounded slice of the input without a dominating length fact, "
-             "L3 residue discipline on every extracted path of receive, L4 decode-order append and an independent processing loop, L5 copy-out. "
+             "L3 residue discipline on every extracted path of receive (who may write and who may read the pending-bytes buffer), L4 decode-order append and an "
+             "independent processing loop (over receive and the decode helpers it hands the reader to), L5 copy-out, L6 sibling agreement on reader state. "
              "Necessary conditions; value equality across chunkings is not decided.",
         note="Trusted: Python slicing/bytes semantics; the induction over chunks; receive keeps today's two-phase shape (an early return that is not "
              "'no new data' is reported).",
@@ -60,7 +63,8 @@ CHECKS = {
         technique="integer-interval and guard-fact analysis of asn1.py + writer/reader constant agreement",
         text="PARTIAL by design: decides (a) totality/range safety of the BER primitives (every subscript in range, every bytearray store in 0..255, "
              "struct.unpack fed one octet), (b) no over-consumption / no silent clamping, (c) agreement of the bit-field constants the writer and reader "
-             "use (tag-form threshold 31, length-form threshold 128, 7-bit continuation, class/constructed bit positions, boolean octets). The arithmetic "
+             "use (tag-form threshold 31, length-form threshold 128, 7-bit continuation, class/constructed bit positions, boolean octets), (d) no primitive mutates a "
+             "buffer it was handed, reader methods agree on the state they reset. The arithmetic "
              "equalities of the property (minimal two's complement, denoted value) are NOT decided: no sound static argument in reach.",
         note="Caller preconditions on user-supplied tags (class in 0..3, number >= 0) are assumed for the writer; the library's own tags are checked constant under C05.",
         ref="DESIGN.md section 5 C07"),
@@ -102,43 +106,51 @@ CHECKS = {
         technique="dataflow (sanitiser routing) + byte-class algebra and regular-language inclusion on folded patterns",
         text="SERIALISER-SIDE NECESSARY CONDITIONS: every bytes-typed filter field reaches the text only through the value serialiser; the escape class contains every "
              "byte RFC 4515 or the parser gives meaning to plus all non-ASCII bytes, and leaves only printable ASCII; escapes are backslash + two hex digits and that "
-             "language is accepted by the un-escaper's patterns; hex digits are decoded strictly. These make un-escape(escape(v)) = v. That the parser rebuilds the "
-             "same TREE (offset arithmetic, C14) is not decided.",
+             "language is accepted by the un-escaper's patterns; hex digits are decoded strictly; the escape pattern is one unconditional byte class. These make "
+             "un-escape(escape(v)) = v. PARSER-SIDE NECESSARY CONDITIONS: structure is read off the raw text (nothing that is definitely un-escaped is cut at '*'), "
+             "a presence filter is chosen exactly for the raw value '*', parse results are not cached/shared. That the parser rebuilds the same TREE in general "
+             "(offset arithmetic, C14) is not decided.",
         note="Trusted: re._parser dialect; RFC 4515 special bytes transcribed in the checker.",
         ref="DESIGN.md section 5 C13"),
     "C15": dict(
         technique="may-raise analysis + dimension typing of offsets + guard dataflow (+ regular-language inclusion)",
         text="Decides totality of LDAPFilter.from_string up to the listed undecided window-index sites (escape set is FilterSyntaxError), a dimension discipline "
              "(absolute position vs relative extent) on every FilterSyntaxError and recursive call, and that every attribute/rule reaching a constructor passed the "
-             "attribute pattern, whose language is compared with RFC 4512 by automata inclusion. Round trip of accepted results is not decided.",
+             "attribute pattern, whose language is compared with RFC 4512 by automata inclusion (IGNORECASE modelled with the engine's own folding rule); (offset, length) "
+             "pairs name one span. Round trip of accepted results is not decided.",
         note="IndexError on the scanners' window view needs relational offset arithmetic and is listed as undecided in the evidence, never alarmed.",
         ref="DESIGN.md section 5 C15"),
     "C16": dict(
         technique="byte-class algebra + regular-language inclusion on folded patterns + field coverage",
         text="NECESSARY CONDITIONS of the schema text round trip: escape agreement between _encode_qdstring, the RFC dstring grammar and the reader's un-escape pattern; "
              "single-pass un-escaping (no order-dependent replace chain); the keyword order each __str__ can emit is accepted by the description pattern; every field is "
-             "written and parsed. Equality of the whole definition (post-regex strip/split extraction) is not decided.",
+             "written and parsed; everything the encoder can emit is a qdstring of the library's own fragment; fields that may be 0 are tested with `is not None`; the "
+             "extension parser searches no delimiter across quoted values; parse results are fresh. Equality of the whole definition beyond these is not decided.",
         note="Trusted: re._parser dialect; RFC 4512 dstring transcription.",
         ref="DESIGN.md section 5 C16"),
     "C17": dict(
         technique="exact regular-language inclusion (RFC 4512 grammars vs the folded description patterns) + may-raise analysis",
         text="Decides EXACTLY, for all sentences and all spacing choices, that each RFC 4512 description grammar (plus the quoted SYNTAX variant) is included in the language "
              "its pattern accepts under .match (on-the-fly subset construction, shortest counter-example); decides totality (only ValueError can leave from_string), "
-             "group-name existence and single-pass un-escaping. That the extracted FIELDS equal what the grammar denotes (strip/split code) is not decided.",
+             "group-name existence, single-pass un-escaping and absence of exponential backtracking; and, for the hand-written cutting after the regex, two typestate "
+             "analyses: every positional inspection acts on text that cannot start with a space (SP = 1*SPACE is tolerated everywhere - this found defect F15), and the "
+             "extension parser looks for no delimiter but the quote while quoted text may lie ahead. Full equality of the extracted FIELDS with what the grammar denotes "
+             "is not decided.",
         note="Trusted: the RFC transcription in sa/rx/rfc.py (DESIGN.md Appendix B); re._parser dialect.",
         ref="DESIGN.md section 5 C17, Appendix B"),
     "C18": dict(
         technique="automata-theoretic ambiguity analysis of every regular expression recovered by constant folding",
         text="Decides for all regular expressions of the package (10 distinct, 12 use sites): no exponential ambiguity with a constructed failing witness family "
-             "(product-SCC criterion on the position multigraph with sre's empty-iteration rule); structural progress of the hand-written scanner loops and no "
-             "re-parse-on-failure. Wall-clock constants and exact polynomial degree are not decided.",
+             "(product-SCC criterion on the position multigraph with sre's empty-iteration rule); path-based progress of every scanner loop and of every "
+             "`while <reader>:` loop of the decoders (each path to the back edge consumes), and no re-parse-on-failure. Wall-clock constants and exact polynomial degree are not decided.",
         note="Trusted: re._parser as the dialect; the backtracking cost model (number of distinct runs). Patterns are never compiled or matched.",
         ref="DESIGN.md section 5 C18, section 4 Engine E"),
     "C19": dict(
         technique="ownership / effect-set rules over the AST of the whole package (absence rules with a known-bad fixture)",
         text="Decides absence of shared mutable state: session attributes are fresh allocations created in __init__, no class-level mutables, option defaults built by "
              "fresh factories, no function writes or uses module-level/class-level mutable objects (one reviewed exception), every options argument is rooted at a "
-             "parameter or at the session's own options, register_* refuse duplicates before appending to the session's own list. The interleaving statement follows "
+             "parameter or at the session's own options, register_* refuse duplicates before appending to the session's own list, no memoised function returns a mutable "
+             "value. The interleaving statement follows "
              "from these on paper.",
         note="Trusted: the non-interference argument from absence of shared mutable state; CPython enum internals for the reviewed _missing_ memo.",
         ref="DESIGN.md section 5 C19"),
@@ -195,8 +207,10 @@ def main():
                  "2 ANALYSIS-ERROR (the analysis could not classify a construct it needs; never a verdict). The rules are exhaustive over the code, so the "
                  "thorough tier evaluates the same rules and additionally exercises the checker itself on every seeded variant under /verif/seeded (breaking "
                  "variants it is recorded to report, behaviour-preserving variants it must stay silent on), each applied to a scratch copy of the current working "
-                 "tree; that self-test is written to the evidence and never changes the verdict. 16 genuine defects were repaired by fix: commits in /repo "
-                 "(6de8880..ec56877) and 2 are known findings pinned by tests; see /verif/known_findings.txt and DESIGN.md sections 0, 2 and 10.",
+                 "tree; that self-test is written to the evidence and never changes the verdict. 17 genuine defects were repaired by fix: commits in /repo "
+                 "(6de8880..2e64ae9; the last one, F15, was found by the C17 typestate analysis) and 2 are known findings pinned by tests; see "
+                 "/verif/known_findings.txt and DESIGN.md sections 0, 0b, 2 and 10. 155 seeded variants are kept under /verif/seeded (107 property-breaking, all "
+                 "reported; 48 behaviour-preserving, all silent).",
     }
     with open(os.path.join(VERIF, "MANIFEST.json"), "w") as f:
         json.dump(man, f, indent=1)
